@@ -271,6 +271,11 @@ namespace Pistache::Http
             else if (match_raw("HTTP/1.0", strlen("HTTP/1.0"), cursor))
             {
             }
+            else if (cursor.remaining() < strlen("HTTP/1.1"))
+            {
+                // Not enough data yet to tell which version this is
+                return State::Again;
+            }
             else
             {
                 raise("Encountered invalid HTTP version");
@@ -287,6 +292,10 @@ namespace Pistache::Http
             if (!match_until(' ', cursor))
                 return State::Again;
 
+            // strtol() skips leading white space: an empty token would make it scan
+            // whatever follows the status line
+            if (!std::isdigit(static_cast<unsigned char>(*codeToken.rawText())))
+                raise("Failed to parse return code");
             char* end;
             auto code = strtol(codeToken.rawText(), &end, 10);
             if (*end != ' ')
